@@ -10,6 +10,11 @@ properties that own the function.
                                (a function that became untranslatable, appeared or disappeared counts as changed)
     changed_owners(repo)    -> sorted list of property ids (C01..C20) owning a changed function
 
+Coverage: EVERY function of every package of the module (translator mode -hashall).  For a function the translator has a
+Gallina definition for, the hash is that of the definition; for every other function (loops over fresh slices,
+interfaces, reflection, ...) it is the hash of the SSA form (insensitive to comments, layout, renamed locals).  Owners of
+a function outside the curated list OWNERS are the properties that anchor its source file in properties.jsonl.
+
 The tie is AUXILIARY: a registered property check does not fail because of it.  ./check may call
 changed_owners(REPO) to ESCALATE the search budget of an owning property (e.g. run the thorough tier) when the code
 its model was proved equal to is no longer the code in the tree.
@@ -55,13 +60,29 @@ def load_baseline():
     return json.load(open(BASELINE)).get("functions", {})
 
 
+def owners_by_file():
+    """source file -> ids of the registered properties that anchor it (properties.jsonl)"""
+    m = {}
+    try:
+        for line in open(os.path.join(ROOT, "properties.jsonl")):
+            if line.strip():
+                d = json.loads(line)
+                for f in (d.get("anchors") or {}).get("files", []):
+                    m.setdefault(f, []).append(d["id"])
+    except Exception:
+        pass
+    return m
+
+
 def generate(repo=None, sfx="-changed", out=None, timeout=600):
-    """Run the translator on `repo` in its own work directory; returns {name: result dict}.
+    """Run the translator in -hashall mode on `repo` in its own work directory; returns {name: result dict} for EVERY
+    function of the module (hash of the generated definition where one exists, of the SSA form otherwise).
     Does not touch coq/gen/Trans.v unless `out` says so."""
     repo = repo or os.environ.get("VERIF_REPO", "/repo")
     bdir = os.path.join(ROOT, "build", "trans")
     os.makedirs(bdir, exist_ok=True)
-    env = dict(os.environ, VERIF_REPO=repo, TRANS_SFX=sfx, TRANS_OUT=out or os.path.join(bdir, "Trans%s.v" % sfx))
+    env = dict(os.environ, VERIF_REPO=repo, TRANS_SFX=sfx, TRANS_OUT=out or os.path.join(bdir, "Trans%s.v" % sfx),
+               TRANS_FLAGS="-hashall")
     with open(os.path.join(bdir, "lock%s" % sfx), "w") as lk:
         fcntl.flock(lk, fcntl.LOCK_EX)
         p = subprocess.run([REGEN, repo], env=env, timeout=timeout, stdout=subprocess.PIPE, stderr=subprocess.PIPE, text=True)
@@ -71,11 +92,13 @@ def generate(repo=None, sfx="-changed", out=None, timeout=600):
     return {r["name"]: r for r in rs}
 
 
-def compare(cur, base=None):
-    """names whose hash differs (or that exist on one side only), in the translator's order"""
+def compare(cur, base=None, only_cur=False):
+    """names whose hash differs (or that exist on one side only), in the translator's order;
+    only_cur: `cur` is the curated list of ./check T01, not the whole module"""
     base = load_baseline() if base is None else base
     out = [n for n in cur if cur[n]["hash"] != base.get(n, {}).get("hash")]
-    out += [n for n in base if n not in cur]
+    if not only_cur:
+        out += [n for n in base if n not in cur]
     return out
 
 
@@ -90,9 +113,14 @@ def changed_functions(repo=None):
 
 def changed_owners(repo=None):
     base = load_baseline()
+    byfile = owners_by_file()
+    try:
+        cur = generate(repo)
+    except TransError:
+        cur = {}
     ids = set()
-    for n in changed_functions(repo):
-        ids.update(base.get(n, {}).get("owners") or OWNERS.get(n, []))
+    for n in (compare(cur, base) if cur else sorted(base)):
+        ids.update(base.get(n, {}).get("owners") or OWNERS.get(n) or byfile.get(cur.get(n, {}).get("file", ""), []))
     return sorted(ids)
 
 
@@ -119,15 +147,17 @@ def update_baseline(repo="/repo"):
     except Exception:
         pass
     fns = {}
+    byfile = owners_by_file()
     for n, r in cur.items():
-        fns[n] = {"hash": r["hash"], "status": r["status"], "owners": OWNERS.get(n, []), "coq": r["coq"],
+        own = sorted(set(OWNERS.get(n, [])) | set(byfile.get(r.get("file", ""), [])))
+        fns[n] = {"hash": r["hash"], "status": r["status"], "owners": own, "coq": r["coq"], "file": r.get("file", ""),
                   # an equality proof exists (otherwise the function is translated for change detection only)
                   "proved": os.path.exists(os.path.join(ROOT, "coq", "theories", "Proofs", "TransEq_%s.v" % r["coq"]))}
-        if r["status"] == "translated":
-            fns[n]["def"] = r["def"]
+        if r["status"] == "translated" and (n in OWNERS or fns[n]["proved"]):
+            fns[n]["def"] = r["def"]          # the text is kept for the curated functions (diff in the report of T01)
             fns[n]["calls"] = r.get("calls") or []
-        else:
-            fns[n]["reason"] = r.get("reason", "")
+        elif r["status"] != "translated":
+            fns[n]["reason"] = r.get("reason", "")[:160]
     json.dump({"comment": "baseline of harness/trans: the definitions the proofs Proofs/TransEq_*.v were written against; "
                           "rewrite with `python3 lib/trans_changed.py --update-baseline`",
                "repo_head": head, "functions": fns}, open(BASELINE, "w"), indent=1)
@@ -156,9 +186,10 @@ def main(argv):
     ch = compare(cur)
     if a.owners:
         base = load_baseline()
+        byfile = owners_by_file()
         ids = set()
         for n in ch:
-            ids.update(base.get(n, {}).get("owners") or OWNERS.get(n, []))
+            ids.update(base.get(n, {}).get("owners") or OWNERS.get(n) or byfile.get(cur.get(n, {}).get("file", ""), []))
         print(" ".join(sorted(ids)))
     else:
         for n in ch:
